@@ -312,3 +312,5 @@ func scale(quick, thorough int) int {
 func evThorough() bool { return ev.Thorough() }
 
 func flagSet(name, val string) { flag.Set(name, val) }
+
+func osReadFile(p string) ([]byte, error) { return os.ReadFile(p) }
